@@ -290,6 +290,8 @@ class Built:
         self.n = n
         basis = np.array(case['basis'] if basis is None else basis, dtype=float) * 2.0 ** case.get('basis_unit', 0)
         data = np.array(case['data'], dtype=float) * 2.0 ** case.get('data_unit', 0)
+        if case.get('basis_units'):
+            basis = basis * (2.0 ** np.array(case['basis_units'], dtype=float))[:, None]
         for e in case['nan_pairs']:
             basis[:, e] = np.nan
             data[:, e] = np.nan
@@ -362,6 +364,10 @@ def problem_labels(case, prefix):
     return labels, nt
 
 
+def built_kw(built):
+    return dict(built.fit_kw)
+
+
 def call_fit(fn, model, built, sig, on_error='violation', **extra):
     kw = dict(method=built.method, sigma_k=built.sigma)
     kw.update(built.fit_kw)
@@ -419,6 +425,11 @@ def regress_case(draw):
     # power-of-two rescaling) have the same optimum up to the scale of the weights
     case['basis_unit'] = draw(st.sampled_from([0, 0, 0, -30, -17, 6, 20]))
     case['data_unit'] = draw(st.sampled_from([0, 0, 0, -30, 6, 20]))
+    # ... and the basis RDMs among themselves: a 0/1 category model next to distance RDMs computed
+    # from data in volts (one exact power of two per basis RDM; its weight scales inversely)
+    k = len(case['basis'])
+    case['basis_units'] = [draw(st.sampled_from([0, 0, 0, -30, 24])) for _ in range(k)] \
+        if draw(st.integers(0, 2)) == 0 else None
     return case
 
 
@@ -472,6 +483,22 @@ def _check_regress_one(case, b, fitter):
             'regress:shape')
     require(not np.isnan(theta).any(), '%s returned NaN weights' % name, 'regress:nan')
     what = '%s(%s%s%s)' % (name, b.method, ', sigma_k' if b.sigma is not None else '', _sel_txt(case))
+    # a Fitter object wraps the same function with fixed settings; what one call is given (a noise
+    # matrix, a method) is that call's business: a later call without it equals the direct call
+    if (k + b.n_sel) % 2 == 0:
+        ft = F.Fitter(fn, normalize=case['normalize'])
+        first = dict(built_kw(b), method='corr_cov' if b.method != 'corr_cov' else 'cosine_cov',
+                     sigma_k=2.0 * np.eye(b.n_sel) + 0.25)
+        with core.watchdog(20), step_budget('regress:raises:' + name):
+            lib(ft, model, b.data_rdms, on_error='reject', **first)
+            kw2 = dict(built_kw(b), method=b.method)
+            if b.sigma is not None:
+                kw2['sigma_k'] = b.sigma
+            th2 = np.asarray(lib(ft, model, b.data_rdms, on_error='violation',
+                                 sig='regress:raises:Fitter', **kw2), dtype=float)
+        require(bool(np.array_equal(th2, theta)), 'Fitter(%s) called a second time with %s: %s, the '
+                'direct call gives %s' % (name, sorted(kw2), core._short(th2), core._short(theta)),
+                'regress:fitter-object-remembers')
     # constraints
     if nn:
         require(bool(np.all(theta >= -1e-12)), '%s: negative weight %s' % (what, core._short(theta)),
